@@ -416,6 +416,29 @@ def _meta(case, ctx):
         # instances), no other keys, a proper time stamp: the event must be created
         ctx.viol(f"conforming-payload-refused:{shape}", {"decl": decl, "payload": repr(payload)[:300], "timed": case["timed"], "check": case["check"]})
         return
+    if created is not None and case["check"] and isinstance(payload, dict) and type(payload) is dict and _conforms(decl, payload):
+        # right after a conforming payload was accepted: the same payload with one value replaced by an EQUAL value of a type
+        # that does not conform (1.0 for 1, 1 for 1.0) is judged on its own - an accepted payload vouches for nothing else
+        for k in keys:
+            v = payload.get(k)
+            twin_v = None
+            if decl[k] == "int" and type(v) is int and float(v) == v:
+                twin_v = float(v)
+            elif decl[k] == "float" and type(v) is float and v == v and abs(v) < 2 ** 53 and v == int(v):
+                twin_v = int(v)
+            if twin_v is None:
+                continue
+            twin = dict(payload)
+            twin[k] = twin_v
+            if _conforms(decl, twin):
+                continue
+            ctx.count("equal_valued_nonconforming_twins_tried")
+            try:
+                TimedEvent(ts, et, twin, True) if case["timed"] else Event(et, twin, True)
+            except Exception:
+                break
+            ctx.viol("nonconforming-event-created:equal-to-an-accepted-payload", {"decl": decl, "payload": repr(payload)[:200], "twin": repr(twin)[:200]})
+            return
     if created is not None:
         ctx.count("metadata_created")
         if case["check"] and not _conforms(decl, payload):
